@@ -318,88 +318,9 @@ func shellTable(f *ast.File) string {
 	fmt.Fprintf(&b, "\nDefinition reset_state : state := %s.\n", stOf("Scanner.Reset", "s.st"))
 	fmt.Fprintf(&b, "Definition new_state : state := %s.\n", stOf("NewScanner", "st"))
 	fmt.Fprintf(&b, "Definition rest_state : state := %s.\n", stOf("Scanner.Rest", "s.st"))
+	b.WriteString(shellSkeleton(f, enums["action"]))
 	fmt.Fprintf(&b, "\n(* %d table entries, %d class entries *)\n", rows, len(ents))
 	return b.String()
 }
 
-// ---- cache/cache.go: which methods of Cache run entirely under the mutex
-
-func cacheLocks(f *ast.File) string {
-	type m struct {
-		name   string
-		locked bool
-	}
-	var ms []m
-	for _, d := range f.Decls {
-		fd, ok := d.(*ast.FuncDecl)
-		if !ok || fd.Recv == nil || fd.Body == nil {
-			continue
-		}
-		if !strings.Contains(src(fd.Recv.List[0].Type), "Cache") {
-			continue
-		}
-		recv := ""
-		if len(fd.Recv.List[0].Names) == 1 {
-			recv = fd.Recv.List[0].Names[0].Name
-		}
-		touches := false
-		ast.Inspect(fd.Body, func(n ast.Node) bool {
-			if se, ok := n.(*ast.SelectorExpr); ok {
-				if id, ok := se.X.(*ast.Ident); ok && id.Name == recv && se.Sel.Name != "μ" {
-					touches = true
-				}
-			}
-			return true
-		})
-		locked := false
-		st := fd.Body.List
-		// A method is lock-wrapped when it starts with an optional nil-receiver guard that
-		// touches no field, then recv.μ.Lock(); defer recv.μ.Unlock().
-		i := 0
-		for i < len(st) {
-			ifs, ok := st[i].(*ast.IfStmt)
-			if !ok {
-				break
-			}
-			t := false
-			ast.Inspect(ifs, func(n ast.Node) bool {
-				if se, ok := n.(*ast.SelectorExpr); ok {
-					if id, ok := se.X.(*ast.Ident); ok && id.Name == recv {
-						t = true
-					}
-				}
-				return true
-			})
-			if t {
-				break
-			}
-			i++
-		}
-		if i+1 < len(st) {
-			es, ok1 := st[i].(*ast.ExprStmt)
-			ds, ok2 := st[i+1].(*ast.DeferStmt)
-			if ok1 && ok2 && src(es.X) == recv+".μ.Lock()" && src(ds.Call) == recv+".μ.Unlock()" {
-				locked = true
-			}
-		}
-		if touches {
-			ms = append(ms, m{fd.Name.Name, locked})
-		}
-	}
-	if len(ms) == 0 {
-		fail("no Cache methods found")
-	}
-	sort.Slice(ms, func(i, j int) bool { return ms[i].name < ms[j].name })
-	var b strings.Builder
-	b.WriteString("From Coq Require Import String.\nLocal Open Scope string_scope.\n\n")
-	b.WriteString("(* every method of Cache that touches a field other than the mutex, and whether its whole body\n   runs between μ.Lock() and the deferred μ.Unlock() *)\n")
-	b.WriteString("Definition cache_methods : list (string * bool) :=\n  [")
-	for i, x := range ms {
-		if i > 0 {
-			b.WriteString(";\n   ")
-		}
-		fmt.Fprintf(&b, "(\"%s\", %v)", x.name, x.locked)
-	}
-	b.WriteString("].\n")
-	return b.String()
-}
+// ---- cache/cache.go: the special generator "cachelocks" lives in cachelocks.go
